@@ -5,6 +5,7 @@ import Pyunicorn.Lemmas.LineDistRound
 import Pyunicorn.Lemmas.LineDistEntropy
 import Pyunicorn.Lemmas.LineDistRnd64
 import Pyunicorn.Lemmas.LineDistMethods
+import Pyunicorn.Lemmas.LineDistLoops
 /-!
 # C08 — RQA line statistics are exact run-length counts of the matrix
 
@@ -1180,6 +1181,34 @@ example :
       = 8 ∧
     recurrenceRateNum id ⟨[[.fin 0], [.nan], [.fin (1/2)], [.fin 1], [.pinf]], .fin 1, 1, true, false⟩
       = 8 := by decide +kernel
+
+/-- **the two outer loops of `_supremum_distance_matrix_rp` as written compute the closed form**
+that the model of `set_fixed_threshold` uses (`for j in range(T): for k in range(j): …
+distance[j, k] = distance[k, j] = diff` on `np.zeros`; bounds and store targets are regenerated from
+the source on every run): every entry, every size, dimension, embedding, float structure.  (Until
+round 4 the loops were only checked literally by the translator.) -/
+theorem distance_matrix_loops_eq_closed {α : Type} (O : FOps α) (n_time dim : Int)
+    (E : Int → Int → α) (a b : Int) :
+    StructC08.supremum_rp_loops O n_time dim E a b
+      = StructC08._supremum_distance_matrix_rp O n_time dim E a b :=
+  rp_loops_eq_closed O n_time dim E a b
+
+/-- hence what the loops return is symmetric with the `np.zeros` diagonal, and outside
+`[0, T) × [0, T)` nothing is ever stored -/
+theorem distance_matrix_loops_symmetric {α : Type} (O : FOps α) (n_time dim : Int)
+    (E : Int → Int → α) (a b : Int) :
+    StructC08.supremum_rp_loops O n_time dim E a b = StructC08.supremum_rp_loops O n_time dim E b a ∧
+    StructC08.supremum_rp_loops O n_time dim E a a = O.zero := by
+  rw [rp_loops_eq_closed, rp_loops_eq_closed, rp_loops_eq_closed]
+  refine ⟨dist_rp_symm O n_time dim E a b, ?_⟩
+  unfold StructC08._supremum_distance_matrix_rp
+  simp only []
+  rw [if_neg (by omega), if_neg (by omega)]
+
+example : StructC08.supremum_rp_loops (xOps id) 3 1 (accX [[.fin 0], [.fin 2], [.fin 5]]) 2 1 = .fin 3 ∧
+    StructC08.supremum_rp_loops (xOps id) 3 1 (accX [[.fin 0], [.fin 2], [.fin 5]]) 0 2 = .fin 5 ∧
+    StructC08.supremum_rp_loops (xOps id) 3 1 (accX [[.fin 0], [.fin 2], [.fin 5]]) 1 1 = .fin 0 := by
+  decide +kernel
 
 end Methods
 
